@@ -211,20 +211,20 @@ class Run(object):
                 allowed = () if mutable else (ImmutableTaxonNamespaceError,)
                 expect = before + [t] if mutable else before
                 ns.add_taxon(t)
-                if not mutable:
-                    raise Violation("immutable.gains_member", "", "add_taxon on an immutable namespace did not raise")
             elif name == "add_member":
                 expect = before
                 ns.add_taxon(before[op[1]])
             elif name == "new":
                 allowed = () if mutable else (ImmutableTaxonNamespaceError,)
                 r = ns.new_taxon(op[1])
+                if isinstance(r, Taxon):
+                    self.keep.append(r)
                 if not mutable:
-                    raise Violation("immutable.gains_member", "", "new_taxon on an immutable namespace did not raise")
-                self.keep.append(r)
-                if not isinstance(r, Taxon) or r._label != op[1] or any(r is x for x in before):
-                    raise Violation("new_taxon.effect", "", "returned %r, required a new Taxon labelled %r" % (r, op[1]))
-                expect = before + [r]
+                    expect = before      # no documented error raised: it must at least not have gained a member
+                else:
+                    if not isinstance(r, Taxon) or r._label != op[1] or any(r is x for x in before):
+                        raise Violation("new_taxon.effect", "", "returned %r, required a new Taxon labelled %r" % (r, op[1]))
+                    expect = before + [r]
             elif name == "require":
                 label, c = op[1], op[2]
                 m = NSPEC.matches(ns, label, c)
@@ -237,11 +237,14 @@ class Run(object):
                 else:
                     allowed = () if mutable else (ImmutableTaxonNamespaceError,)
                     r = ns.require_taxon(label, is_case_sensitive=c)
-                    if not mutable:
-                        raise Violation("immutable.gains_member", "", "require_taxon of an absent label on an immutable namespace did not raise")
                     if isinstance(r, Taxon):
                         self.keep.append(r)
                     got = list(ns._taxa)
+                    if not mutable:
+                        if len(got) > len(before):
+                            raise Violation("immutable.gains_member", "", "require_taxon(%r) added a member to an immutable namespace" % (label,))
+                        raise Violation("require_taxon.first_or_new", "",
+                                        "no member matches %r and the namespace is immutable: neither the documented error nor a new member" % (label,))
                     added = [t for t in got if not any(t is x for x in before)]
                     if not (isinstance(r, Taxon) and len(added) == 1 and added[0] is r and r._label == label
                             and len(got) == len(before) + 1):
@@ -261,20 +264,19 @@ class Run(object):
                         items.append(t)
                 fresh = [t for t in items if not any(t is x for x in before)]
                 allowed = () if (mutable or not fresh) else (ImmutableTaxonNamespaceError,)
-                expect = before + fresh if mutable else None
+                expect = before + fresh if mutable else before
                 ns.add_taxa(items)
-                if not mutable and fresh:
-                    raise Violation("immutable.gains_member", "", "add_taxa with new taxa on an immutable namespace did not raise")
             elif name == "new_taxa":
                 allowed = () if mutable else (ImmutableTaxonNamespaceError,)
                 r = ns.new_taxa(list(op[1]))
-                if not mutable:
-                    raise Violation("immutable.gains_member", "", "new_taxa on an immutable namespace did not raise")
                 r = list(r)
-                self.keep.extend(r)
-                if [getattr(t, "_label", None) for t in r] != list(op[1]) or any(any(t is x for x in before) for t in r):
-                    raise Violation("new_taxa.effect", "", "returned %r for labels %r" % ([getattr(t, "_label", t) for t in r], list(op[1])))
-                expect = before + r
+                self.keep.extend(t for t in r if isinstance(t, Taxon))
+                if not mutable:
+                    expect = before
+                else:
+                    if [getattr(t, "_label", None) for t in r] != list(op[1]) or any(any(t is x for x in before) for t in r):
+                        raise Violation("new_taxa.effect", "", "returned %r for labels %r" % ([getattr(t, "_label", t) for t in r], list(op[1])))
+                    expect = before + r
             elif name == "remove":
                 t = before[op[1]]
                 expect = [x for x in before if x is not t]
@@ -778,7 +780,7 @@ def t2(ctx):
 
 def replay(ctx, rec):
     w = rec["witness"]
-    ops = [tuple(tuple(x) if isinstance(x, list) and o[0] not in ("add_taxa", "new_taxa") else x for x in o) for o in w["ops"]]
+    ops = [tuple(o) for o in w["ops"]]
     run, done = run_history(w["cs"], tuple(w["init"]), w["warm"], ops)
     hit = [f for f in run.fails if f[0] == rec["obligation"] and (not w.get("probe") or f[1] == w["probe"])]
     for f in hit[:1]:
